@@ -76,6 +76,11 @@ def compare(v, rr, mr):
 def evaluate(ctx, b, lib, model_exe, n_pops, per_class):
     rng = ctx.rng
     sch = lib.schema
+    # the class "string literal with record delimiters where another scalar is expected" breaks the confinement clause
+    # in a source without the resynchronisation of ReadInstance (finding confine:string-delimiters-as-scalar, repaired by
+    # fixes/C03-3): it is generated when the source has the repair (decided from the regenerated switch, i.e. from the
+    # source text, not from any symptom); corpus/C03/string-delimiters-as-scalar.json replays it on any tree
+    string_delims = ctx.cov.get("model_cfg", {}).get("errorResyncsFromStart") == "1"
     items = []     # (violation, text, base index)
     bases = []
     pops = [W.gen_population(rng, sch, rng.randint(4, 9)) for _ in range(n_pops)]
@@ -83,7 +88,7 @@ def evaluate(ctx, b, lib, model_exe, n_pops, per_class):
         pops.insert(0, W.ref_population(sch))       # references to complex instances through every part
     for pop in pops:
         bases.append((pop, W.render_file(sch.name, pop)))
-        for v in W.violations(rng, sch, pop, per_class):
+        for v in W.violations(rng, sch, pop, per_class, string_delims=string_delims):
             items.append((v, W.render_violation(sch.name, v), len(bases) - 1))
     files = []
     for k, (pop, text) in enumerate(bases):
@@ -175,7 +180,7 @@ def run(ctx):
     ctx.cov["rule"] = ("generated schemas (plus an abstract supertype) x conforming closed populations x one violation per file from: "
                        "wrong literal kind (attribute / aggregate element), undeclared enumeration item, `*` for a non-derived "
                        "attribute, a value for a derived one, `$` for a required aggregate, dangling / wrong-type reference (attribute / aggregate element), "
-                       "SELECT value outside the list (typed / reference), too few / too many parameters, unknown / abstract "
+                       "a STRING literal containing `)` `;` `,` where another scalar is expected (when the source re-synchronises such records), SELECT value outside the list (typed / reference), too few / too many parameters, unknown / abstract "
                        "keyword (simple / complex part), duplicate id, unterminated instance / string; at first / middle / "
                        "last / only parameter positions, in simple and complex instances")
 
